@@ -609,6 +609,25 @@ def gen_functional(repo: Path, notes: list) -> str:
 
 OBJ_CLASS_NAMES = {"bool", "int", "str", "list", "tuple", "set", "frozenset", "dict", "Options", "RuntimeContext", "Mapping",
                    "type", "Iterable"}
+EXC_SUBCLASSES: dict = {}      # utype exception class -> the classes defined below it (filled by `load_exc_subclasses`)
+
+
+def load_exc_subclasses(repo: Path):
+    """the class tree of utype/utils/exceptions.py: name -> every class derived from it, in source order"""
+    EXC_SUBCLASSES.clear()
+    try:
+        tree = ast.parse((repo / "utype/utils/exceptions.py").read_text())
+    except Exception:
+        return
+    classes = [(n.name, [b.id for b in n.bases if isinstance(b, ast.Name)]) for n in tree.body if isinstance(n, ast.ClassDef)]
+    for name, _ in classes:
+        below = []
+        for c, bases in classes:        # source order: a base is always written before its subclasses
+            if c != name and any(b == name or b in below for b in bases):
+                below.append(c)
+        EXC_SUBCLASSES[name] = below
+
+
 OBJ_EXC_BUILTIN = {"TypeError", "ValueError", "KeyError", "IndexError", "AttributeError", "Exception"}
 
 
@@ -658,10 +677,14 @@ class ObjTranslator:
     def __init__(self, fn, *, src_file, lean_name, kind, siblings, externals=(), ignored_calls=(), params=None,
                  has_self=True, stop_before=None, result_locals=None, doc="", method_externals=(), consts=None,
                  state=None, state_siblings=None, enter_ok=True, operators=None, constructors=None, owner_cls=None,
-                 module_tables=None, module_calls=None, dict_base=False, module_consts=None):
+                 module_tables=None, module_calls=None, dict_base=False, module_consts=None, kwargs_param=False,
+                 foreign_self_methods=()):
         self.fn, self.src_file, self.lean_name, self.kind = fn, src_file, lean_name, kind
         # a subclass of `dict`: the instance keeps its items under the pseudo attribute "<dict>"; `super().m(…)` is `dict.m`
         self.dict_base = dict_base
+        self.kwargs_param = kwargs_param        # a used `**kwargs` arrives as one more parameter holding the dict
+        # methods of self that are not translated: called on the threaded self they are the world's (`W.method`)
+        self.foreign_self_methods = set(foreign_self_methods)
         # constants of a class of another module, read from its source: "utype.Options.THROW" -> Lean code of the value
         self.module_consts: dict = dict(module_consts or {})
         self.siblings: dict[str, Sibling] = siblings
@@ -758,8 +781,16 @@ class ObjTranslator:
                 return "dict_" + a.func.attr
         self.fail(e, "class expression")
 
-    def cls_list(self, e) -> str:
-        names = [self.cls_name(x) for x in e.elts] if isinstance(e, ast.Tuple) else [self.cls_name(e)]
+    def cls_list(self, e, subclasses=False) -> str:
+        elts = e.elts if isinstance(e, ast.Tuple) else [e]
+        names = []
+        for x in elts:
+            n = self.cls_name(x)
+            names.append(n)
+            if subclasses and isinstance(x, ast.Attribute) and isinstance(x.value, ast.Name) and x.value.id == "exc":
+                # `isinstance(v, exc.X)`: an instance of a class is an instance of its bases — the classes written in
+                # utype/utils/exceptions.py below X count too (the value layer knows an object's own class name only)
+                names += [m for m in EXC_SUBCLASSES.get(n, []) if m not in names]
         return "[" + ", ".join(json.dumps(n) for n in names) + "]"
 
     # ---- expressions: (code, pure); pure code : OVal V, impure code : M V (OVal V) ------------------------------
@@ -870,6 +901,14 @@ class ObjTranslator:
         if isinstance(e, ast.Subscript):
             if isinstance(e.slice, ast.Slice):
                 self.fail(e, "slice")
+            if self.dict_base and self.is_self(e.value):
+                # `self[k]` on a dict subclass: its own `__getitem__` if it defines one, else dict's
+                sb = self.siblings.get("__getitem__")
+                if sb is not None:
+                    if sb.kind != "pure":
+                        self.fail(e, "__getitem__ with effects")
+                    return f"{sb.lean_name} W {self.recv_l} {self.atom(e.slice)}", False
+                return f"dictItem {self.items_l} {self.atom(e.slice)}", False
             return f"index {self.atom(e.value)} {self.atom(e.slice)}", False
         if isinstance(e, ast.Attribute) and isinstance(e.value, ast.Name) and (e.value.id, e.attr) in self.module_tables:
             # a table of another module (`constant.FORMAT_MAP`), inlined as it is in the source now: a dict whose keys /
@@ -1054,7 +1093,7 @@ class ObjTranslator:
                 return f"(← callable {self.atom(a[0])})"
             if n == "isinstance" and len(a) == 2:
                 try:
-                    return f"(← isinstance {self.atom(a[0])} {self.cls_list(a[1])})"
+                    return f"(← isinstance {self.atom(a[0])} {self.cls_list(a[1], subclasses=True)})"
                 except Untranslatable:
                     # the class is a computed value (`isinstance(_cls, metaclass)`): the world answers for that value
                     return f"(← truthy (← W.ext \"isinstance\" [{self.atom(a[0])}, {self.atom(a[1])}]))"
@@ -1324,6 +1363,16 @@ class ObjTranslator:
             read, write = self.container_target(s.value.func.value)
             return [write(f"dictDel {read} {self.atom(s.value.args[0])}", ind)]
         if isinstance(s, ast.Expr) and isinstance(s.value, ast.Call) and not s.value.keywords \
+                and isinstance(s.value.func, ast.Attribute) and self.is_self(s.value.func.value) \
+                and s.value.func.attr in self.foreign_self_methods and self.kind == "mut" and self.state == self.recv \
+                and not any(isinstance(x, ast.Starred) for x in s.value.args):
+            # `self.m(…)` for a method that is not translated: the world's, on the threaded self
+            r = f"r_{s.lineno}"
+            return [f"{ind}let {r} ← W.method {json.dumps(s.value.func.attr)} {self.state_l} {self.args_list(s.value.args)}",
+                    f"{ind}{self.state_l} := {r}.1",
+                    f"{ind}if let Outcome.raise exc_{s.lineno} := {r}.2 then",
+                    f"{ind}  return ({self.state_l}, Outcome.raise exc_{s.lineno})"]
+        if isinstance(s, ast.Expr) and isinstance(s.value, ast.Call) and not s.value.keywords \
                 and isinstance(s.value.func, ast.Name) and s.value.func.id in self.declared and len(s.value.args) == 1 \
                 and self.is_state(s.value.args[0]) and self.state == self.recv:
             # `f(self)` for a callable held in a parameter: foreign code given the threaded object — the world's, and
@@ -1570,11 +1619,14 @@ class ObjTranslator:
         a = self.fn.args
         if a.posonlyargs:
             self.fail(self.fn, "signature")
-        if a.kwarg and any(isinstance(n, ast.Name) and n.id == a.kwarg.arg for st in self.fn.body for n in ast.walk(st)):
+        kwargs_used = a.kwarg and any(isinstance(n, ast.Name) and n.id == a.kwarg.arg for st in self.fn.body for n in ast.walk(st))
+        if kwargs_used and not self.kwargs_param:
             self.fail(self.fn, "**kwargs that is used")
         names = [x.arg for x in a.args if not (self.has_self and x.arg == self.recv)]
         if a.vararg:
             names.append(a.vararg.arg)       # `*classes`: the tuple of the positional arguments
+        if kwargs_used:
+            names.append(a.kwarg.arg)        # `**kwargs`: the dict of the keyword arguments
         kwonly = [x.arg for x in a.kwonlyargs]
         extra = list(self.params or [])
         ret_t = "M V (OVal V × Outcome V)" if self.kind == "mut" else "M V (OVal V)"
@@ -1718,7 +1770,9 @@ def gen_group(repo: Path, notes: list, *, src_file: str, cls_name: str | None, f
                                enter_ok=spec.get("enter_ok", True), operators=spec.get("operators"),
                                constructors=spec.get("constructors"), owner_cls=spec.get("cls", cls_name),
                                module_tables=spec.get("module_tables"), module_calls=spec.get("module_calls"),
-                               dict_base=spec.get("dict_base", False), module_consts=spec.get("module_consts"))
+                               dict_base=spec.get("dict_base", False), module_consts=spec.get("module_consts"),
+                               kwargs_param=spec.get("kwargs_param", False),
+                               foreign_self_methods=spec.get("foreign_self_methods", ()))
             out.append(tr.translate() + "\n")
         except Untranslatable as e:
             notes.append(f"untranslatable {e} ({cls_name or ns}.{py})")
@@ -2158,13 +2212,17 @@ def gen_schema(repo: Path, notes: list, gate_ok: bool) -> str:
     c = dict(dict_base=True)
     return gen_group(
         repo, notes, src_file="utype/schema.py", cls_name="Schema", ns="Schema",
-        title="utype/schema.py (class Schema: __contains__, __field_deleter__, __delitem__, pop, popitem, clear)",
+        title="utype/schema.py (class Schema: __contains__, __field_deleter__, __delitem__, pop, popitem, clear, __getitem__, setdefault, update)",
         funcs=[dict(py="__contains__", lean="contains_", kind="pure", **c),
                dict(py="__field_deleter__", lean="field_deleter", kind="mut", **c),
                dict(py="__delitem__", lean="delitem", kind="mut", **c),
                dict(py="pop", kind="mut", **c),
                dict(py="popitem", kind="mut", **c),
-               dict(py="clear", kind="mut", **c)], gate_ok=gate_ok)
+               dict(py="clear", kind="mut", **c),
+               dict(py="__getitem__", lean="getitem_", kind="pure", **c),
+               dict(py="setdefault", kind="mut", foreign_self_methods={"__setitem__"}, **c),
+               dict(py="update", kind="mut", foreign_self_methods={"__setitem__"}, kwargs_param=True, **c)],
+        gate_ok=gate_ok)
 
 
 def main():
@@ -2176,6 +2234,7 @@ def main():
     outd.mkdir(parents=True, exist_ok=True)
     notes: list[str] = []
     files = {}
+    load_exc_subclasses(repo)
     tables, js = gen_tables(repo, notes)
     files["Tables.lean"] = tables
     files["Constraints.lean"] = gen_constraints(repo, notes)
